@@ -398,6 +398,8 @@ fn deserialize_iterator<'a, 'b, T: BinaryDeserializer + 'a>(
             context,
             element: PhantomData,
         },
+        // no writer produces another negative length; as `usize` it would be a count near 2^64
+        Ok(length) if length < 0 => DeserializerIterator::InvalidLength(length),
         Ok(length) => DeserializerIterator::KnownSize {
             context,
             remaining: length as usize,
@@ -417,6 +419,7 @@ enum DeserializerIterator<'a, 'b, T: BinaryDeserializer + 'a> {
         element: PhantomData<T>,
     },
     InputEndedUnexpectedly,
+    InvalidLength(i32),
 }
 
 impl<'a, 'b, T: BinaryDeserializer + 'a> Iterator for DeserializerIterator<'a, 'b, T> {
@@ -427,6 +430,9 @@ impl<'a, 'b, T: BinaryDeserializer + 'a> Iterator for DeserializerIterator<'a, '
             DeserializerIterator::InputEndedUnexpectedly => {
                 Some(Err(Error::InputEndedUnexpectedly))
             }
+            DeserializerIterator::InvalidLength(length) => Some(Err(
+                Error::DeserializationFailure(format!("Invalid sequence length: {length}")),
+            )),
             DeserializerIterator::KnownSize {
                 ref mut context,
                 remaining,
